@@ -308,3 +308,24 @@ func VH_C13_hooked(kind, sk, withWhen int) {
 	vassert(err == nil, "canary-after-op")
 	vreach("end")
 }
+
+// VH_C10_hooked_expired (property C10/C01, in package cron because it needs the cron
+// hooks): a rule written with an expiry runs out unobserved; a rule without expiry is then
+// written under the same id with the same pattern: it is live and must be dispatched.
+func VH_C10_hooked_expired(kind int) {
+	e := vhC15New(kind, false)
+	r := vhPlainRule()
+	r["expires"] = float64(vhBase/1000000000 + 10)
+	_, err := e.loc.AddRule(e.ctx, "r0", r)
+	vassume(err == nil)
+	vsetNow(vhBase + 20*1000000000)
+	_, err = e.loc.AddRule(e.ctx, "r0", vhPlainRule())
+	vassert(err == nil, "addrule-succeeds")
+	_, gerr := e.loc.GetRule(e.ctx, "r0")
+	vassert(gerr == nil, "re-added-rule-is-stored")
+	e.rec.ran = nil
+	_, cond := e.loc.ProcessEvent(e.ctx, core.Map{"a": "1"})
+	vassert(cond == nil, "event-complete")
+	vassert(len(e.rec.ran) == 1, "fires-iff-live-enabled-matching")
+	vreach("end")
+}
